@@ -395,12 +395,10 @@ func projectCollection(rt *ResultTypeExpr, view string, seen map[string]*Attribu
 }
 
 func projectRecursive(at *AttributeExpr, vat *NamedAttributeExpr, view string, seen map[string]*AttributeExpr) (*AttributeExpr, error) {
-	if att, ok := seen[hashAttrAndView(at, view)]; ok {
-		return att, nil
-	}
-	at = DupAtt(at)
-
 	if rt, ok := at.Type.(*ResultTypeExpr); ok {
+		// the view used to render a nested result type is the one set on the
+		// view attribute, else the one set on the attribute, else the default
+		// view: it is part of the key identifying projections already computed
 		vatt := vat.Attribute
 		view, ok := vatt.Meta.Last(ViewMetaKey)
 		if !ok {
@@ -410,6 +408,10 @@ func projectRecursive(at *AttributeExpr, vat *NamedAttributeExpr, view string, s
 				view = DefaultView
 			}
 		}
+		if att, ok := seen[hashAttrAndView(at, view)]; ok {
+			return att, nil
+		}
+		at = DupAtt(at)
 		seen[hashAttrAndView(at, view)] = at
 		pr, err := project(rt, view, seen)
 		if err != nil {
@@ -418,6 +420,11 @@ func projectRecursive(at *AttributeExpr, vat *NamedAttributeExpr, view string, s
 		at.Type = pr
 		return at, nil
 	}
+
+	if att, ok := seen[hashAttrAndView(at, view)]; ok {
+		return att, nil
+	}
+	at = DupAtt(at)
 
 	if _, ok := at.Type.(*UserTypeExpr); ok {
 		seen[hashAttrAndView(at, view)] = at
